@@ -72,7 +72,7 @@ type W struct {
 	deadline time.Time
 	tick     int64
 	// CurCase, if set, describes the case being executed (read by the hang watchdog only).
-	CurCase func() (string, interface{})
+	CurCase  func() (string, interface{})
 	res      workerResult
 	distinct map[uint64]struct{}
 	dcap     int
@@ -80,24 +80,24 @@ type W struct {
 }
 
 type workerResult struct {
-	Evals       int64             `json:"evals"`
-	Distinct    []uint64          `json:"distinct"`
-	DistinctCap bool              `json:"distinct_cap"`
-	States      int64             `json:"states"`
-	Transitions int64             `json:"transitions"`
-	Traces      int64             `json:"traces"`
-	Fam         map[string]int64  `json:"fam"`
-	Violations  []Violation       `json:"violations"`
-	ViolCount   map[string]int64  `json:"viol_count"`
-	Known       map[string]string `json:"known"` // key -> first detail
-	KnownCount  map[string]int64  `json:"known_count"`
+	Evals       int64                  `json:"evals"`
+	Distinct    []uint64               `json:"distinct"`
+	DistinctCap bool                   `json:"distinct_cap"`
+	States      int64                  `json:"states"`
+	Transitions int64                  `json:"transitions"`
+	Traces      int64                  `json:"traces"`
+	Fam         map[string]int64       `json:"fam"`
+	Violations  []Violation            `json:"violations"`
+	ViolCount   map[string]int64       `json:"viol_count"`
+	Known       map[string]string      `json:"known"` // key -> first detail
+	KnownCount  map[string]int64       `json:"known_count"`
 	KnownReplay map[string]interface{} `json:"known_replay"`
-	Samples     []interface{}     `json:"samples"`
-	Caps        []string          `json:"caps"`
-	Notes       []string          `json:"notes"`
+	Samples     []interface{}          `json:"samples"`
+	Caps        []string               `json:"caps"`
+	Notes       []string               `json:"notes"`
 	Extra       map[string]interface{} `json:"extra"`
-	HarnessErr  string            `json:"harness_err"`
-	StateSet    []uint64          `json:"state_set"`
+	HarnessErr  string                 `json:"harness_err"`
+	StateSet    []uint64               `json:"state_set"`
 }
 
 // Quick reports whether the run is the quick tier.
